@@ -1,6 +1,7 @@
 import P2.Model.Merkle
 import P2.Model.PathCompression
 import P2.Drv.Util
+import P2.Drv.C12x
 /- C12 requests: trees, proofs, verification verdicts with the Poseidon hasher. -/
 namespace P2.Drv.C12
 open P2 P2.Merkle
@@ -43,6 +44,7 @@ def handle (op : String) (a : List Nat) : Option String :=
           | .ok => "OK" | .err => "ERR" | .panic => "PANIC")
       | _ => none
     | _ => none
-  | _, _ => none
+  -- Keccak hasher and batch Merkle trees: P2/Drv/C12x.lean
+  | _, _ => C12x.handle op a
 
 end P2.Drv.C12
